@@ -68,11 +68,14 @@ def run_mutants(names):
     """hand-made mutants: mutants/<cNN>_<what>.patch, checked against CNN (+ EXTRA)"""
     res_path = os.path.join(VERIF, "tables", "mutant_results.json")
     results = json.load(open(res_path)) if os.path.exists(res_path) else {}
+    touched = set()
     for fn in names:
         pid = fn.split("_")[0]
         props = ["C" + pid[1:]] + EXTRA.get(pid, [])
         props = [p for p in props if os.path.exists(os.path.join(VERIF, "rules", p.lower() + ".py"))]
-        r = subprocess.run([sys.executable, os.path.join(VERIF, "bin", "try_patch.py"), os.path.join(VERIF, "mutants", fn)] + props, capture_output=True, text=True)
+        r = subprocess.run([sys.executable, os.path.join(VERIF, "bin", "try_patch.py"), os.path.join(VERIF, "mutants", fn)] + props, capture_output=True, text=True,
+                           env=dict(os.environ, VP_NO_REWRITE="1"))
+        touched.update(props)
         by = {}
         cur = None
         for l in r.stdout.splitlines():
@@ -84,8 +87,11 @@ def run_mutants(names):
                 by.setdefault(cur, []).append("%s %s" % (m.group(1), m.group(2).split("::")[-1]))
         verdict = "caught" if r.returncode == 0 else ("missed" if r.returncode == 1 else "error: " + r.stdout[-200:])
         results[fn] = {"verdict": verdict, "by": {k: v[:3] for k, v in by.items()}}
-        print(fn, verdict, list(by))
-    json.dump(results, open(res_path, "w"), indent=1, sort_keys=True)
+        print(fn, verdict, list(by), flush=True)
+        json.dump(results, open(res_path, "w"), indent=1, sort_keys=True)
+    # evidence must describe the unchanged tree again
+    for p in sorted(touched):
+        subprocess.run([os.path.join(VERIF, "bin", "vp"), "check", p], capture_output=True, text=True, cwd=VERIF)
 
 
 if __name__ == "__main__":
